@@ -325,11 +325,11 @@ class Interp:
                                 f"on that path (stream={s.stream}): a group or object that is never closed is accepted",
                                 node=fn, state=f"stream={s.stream}")
         for s in out.normal:
-            ex.add(("return", "NONE", s.lo, s.hi, s.stream, s.skipped, s.after_end, None, "falloff"))
+            ex.add(("return", "NONE", s.lo, s.hi, s.stream, s.skipped or bool(s.get("$degraded")), s.after_end, None, "falloff", s.get("$closed") == "TRUE"))
         for (r, s) in out.returns:
-            ex.add(("return", r, s.lo, s.hi, s.stream, s.skipped, s.after_end, None, "return"))
+            ex.add(("return", r, s.lo, s.hi, s.stream, s.skipped or bool(s.get("$degraded")), s.after_end, None, "return", s.get("$closed") == "TRUE"))
         for (e, s, origin) in out.raises:
-            ex.add(("raise", None, s.lo, s.hi, s.stream, s.skipped or bool(s.get("$degraded")), s.after_end, e, origin))
+            ex.add(("raise", None, s.lo, s.hi, s.stream, s.skipped or bool(s.get("$degraded")), s.after_end, e, origin, False))
         self.cur.pop()
         self.inprogress.discard(key)
         ex = frozenset(ex)
@@ -517,6 +517,15 @@ class Interp:
         if isinstance(t, ast.Name) and st.get(t.id) == "BOOL":
             a, b = st.set(t.id, "TRUE"), st.set(t.id, "FALSE")
             return ({b}, {a}) if neg else ({a}, {b})
+        # flag is True / flag is False / flag == True ... on a tracked boolean
+        if isinstance(t, ast.Compare) and len(t.ops) == 1 and isinstance(t.left, ast.Name) and st.get(t.left.id) == "BOOL" \
+                and isinstance(t.comparators[0], ast.Constant) and isinstance(t.comparators[0].value, bool) \
+                and isinstance(t.ops[0], (ast.Is, ast.IsNot, ast.Eq, ast.NotEq)):
+            k = t.comparators[0].value
+            same, other = st.set(t.left.id, "TRUE" if k else "FALSE"), st.set(t.left.id, "FALSE" if k else "TRUE")
+            if isinstance(t.ops[0], (ast.IsNot, ast.NotEq)):
+                same, other = other, same
+            return ({other}, {same}) if neg else ({same}, {other})
         return {st}, {st}
 
     def truth(self, test, st):
@@ -781,6 +790,9 @@ class Interp:
                 if isinstance(op, (ast.Is, ast.IsNot)) and "NONE" in (a, b) and keepval(a) and keepval(b):
                     same = (a == b)
                     v = "TRUE" if same == isinstance(op, ast.Is) else "FALSE"
+                if isinstance(op, (ast.Is, ast.IsNot, ast.Eq, ast.NotEq)) and a in ("TRUE", "FALSE", "NONE") and b in ("TRUE", "FALSE", "NONE"):
+                    same = (a == b)                                      # x is True / x is False on a known constant
+                    v = "TRUE" if same == isinstance(op, (ast.Is, ast.Eq)) else "FALSE"
                 if isinstance(op, (ast.Eq, ast.NotEq)) and {a, b} == {"TOKEN", "NONE"}:
                     v = "FALSE" if isinstance(op, ast.Eq) else "TRUE"   # a Token never equals None
                 if isinstance(op, (ast.Is, ast.IsNot)) and "NONE" in (a, b) and ("BOOL" in (a, b) or "TRUE" in (a, b) or "FALSE" in (a, b)
@@ -891,7 +903,8 @@ class Interp:
                         f"{w}: a token is requested after the END statement was recognised", node=node)
         if st.stream in ("PB", "PBR", "FRESH"):
             raw = (st.stream == "PBR" or (st.stream == "FRESH" and not st.skipped)) and not in_skip
-            if st.stream == "PBR" and not in_skip and not st.get("$degraded"):
+            if st.stream == "PBR" and not in_skip and not st.get("$degraded") and not st.skipped:
+                # (a callee entered from a degraded state sees it as skipped=True: summaries fold the two)
                 self.report("T6", self.fq(), self.anchor(node),
                             f"{w}: reads as significant a pushed-back token that was first read with no white-space/comment "
                             f"skip before it (a comment at this grammar position would be taken for the token)", node=node)
@@ -1071,13 +1084,15 @@ class Interp:
                 if not never_returns:
                     st = self.t1_check(st, e)
                 st = self.raw_check(st, e, self.where(e))
-            for (kind, ret, dlo, dhi, stream, skipped, after_end, exc, origin) in summ:
+            for (kind, ret, dlo, dhi, stream, skipped, after_end, exc, origin, closed) in summ:
                 if tok:
                     s2 = replace(st.add(dlo, dhi), stream=stream, skipped=skipped, after_end=st.after_end or after_end)
                 else:
                     s2 = st
                 if kind == "return" and fn.name == "parse_end_aggregation":
                     s2 = s2.set("$closed", "TRUE")
+                if kind == "return" and closed and fn.name.startswith("_") and not fn.name.startswith("__"):
+                    s2 = s2.set("$closed", "TRUE")        # the end statement was parsed inside a private helper of this production
                 if kind == "return":
                     if origin == "falloff" and tok and self.value_used(e) and returns_value(fn):
                         self.report("T8", f"{defcls}.{fn.name}" if defcls else fn.name, "falls off the end",
